@@ -117,7 +117,7 @@ def run(c):
     progs = [{"par": {"win": {"A": 32768, "B": 32768}, "pkt": {"A": 32768, "B": 32768}, "tmo": {"A": "block", "B": "block"}},
               "threads": p["threads"]} for p in FIXED]
     progs += programs(rnd, 12 if c.quick else 250)
-    deadline = time.time() + (10 if c.quick else 200)
+    deadline = time.time() + (120 if c.quick else 600)   # safety net only: the schedule counts bound the exploration, so the result does not depend on machine load
     explored = dc.explore_into(runs, c, progs, 6 if c.quick else 150, 4 if c.quick else 40, deadline, bound=1 if c.quick else 2,
                                max_steps=2500, gap_runs=6)
     laps["explore_s"] = round(time.time() - t0 - laps["model+replay_s"], 1)
